@@ -106,10 +106,19 @@ class Ctx:
 
 
 def sig_match(pattern, sig):
-    """Known-finding signatures are exact strings or end with '*' (prefix match)."""
-    if pattern.endswith('*'):
-        return sig.startswith(pattern[:-1])
-    return pattern == sig
+    """Known-finding signatures are literal strings in which '*' matches any run of characters."""
+    parts = pattern.split('*')
+    if len(parts) == 1:
+        return pattern == sig
+    if not sig.startswith(parts[0]):
+        return False
+    pos = len(parts[0])
+    for p in parts[1:-1]:
+        i = sig.find(p, pos)
+        if i < 0:
+            return False
+        pos = i + len(p)
+    return sig.endswith(parts[-1]) and len(sig) - len(parts[-1]) >= pos
 
 
 def load_known(prop):
